@@ -175,9 +175,10 @@ def _example(a, b):
     return show({k: a.get(k, 0) - b.get(k, 0)})[0][:160]
 
 
-def r12c(ctx):
+def r12c(ctx, report=True):
     """the integral builders the definitions are typed with build what the formula IR (and the factorisation) assume"""
     rule = "R12c"
+    all_ok = True
     cases = [
         ("eri", ("p", "q", "r", "s"), tensor_factor("eri", "V", ("p", "q"), ("r", "s")), "<pq||rs>: antisymmetric, upper pq, lower rs"),
         ("eri", "iajb", tensor_factor("eri", "V", ("i", "a"), ("j", "b")), "<ia||jb> from a string of names"),
@@ -198,8 +199,11 @@ def r12c(ctx):
         else:
             ok = kind == "value" and isinstance(val, Poly) and val.terms == want.terms
             got = f"raises {val}" if kind == "raise" else f"returns {_showval(val)}"
-        ctx.check(rule, fn, ok, f"{fname}({idx!r}): {what}", f"{fname}({idx!r}) {got}; expected: {what}",
-                  fn=f"intermediates:{fname}", key=f"{fname} {idx!r}")
+        all_ok = all_ok and ok
+        if report:
+            ctx.check(rule, fn, ok, f"{fname}({idx!r}): {what}", f"{fname}({idx!r}) {got}; expected: {what}",
+                      fn=f"intermediates:{fname}", key=f"{fname} {idx!r}")
+    return all_ok
 
 
 def _showval(v):
@@ -333,13 +337,17 @@ def r12h(ctx, defs):
 def run(ctx):
     reg = registry(ctx)
     ctx.floor("R12a", "registered definitions", len(reg), 25)
+    # the definitions are typed with eri/fock/orb_energy: when these do not build the integrals of the formula IR
+    # nothing else can be decided (and everything else would be a consequence)
+    if not r12c(ctx, report=ctx.want("R12c")):
+        if not ctx.want("R12c"):
+            raise AnalysisError("eri/fock/orb_energy do not build the integrals the formula IR assumes (see rule R12c)")
+        return
     defs = {n: _load(ctx, n) for n in reg}
     if ctx.want("R12a"):
         r12a(ctx, defs)
     if ctx.want("R12b"):
         r12b(ctx)
-    if ctx.want("R12c"):
-        r12c(ctx)
     if ctx.want("R12d"):
         r12d(ctx, defs)
     if ctx.want("R12g"):
